@@ -12,7 +12,7 @@ CONSTANTS
   Depth = 4
   RootP = {"new"}
   MixinP = {"props"}
-  DerivedP = {"props", "ppty", "bare"}
+  DerivedP = {"props", "bare", "empty"}
   DerivedC = {}
   DerivedM = {}
   MaxOverrides = 1
